@@ -248,7 +248,7 @@ func genStore(rt *rapid.T, o storeGenOpts) storeCase {
 			if o.distinctVals {
 				lv.I = seq*7 + 1
 				lv.F = c21F(float64(seq) + 0.25)
-				lv.S = vstat.Q(fmt.Sprintf("text%d", seq))
+				lv.S = vstat.Q(fmt.Sprintf("text%d%s", seq, []string{"", "%", "%s", "%d"}[seq%4]))
 				lv.TimeNs = (1600000000 + seq*1000) * 1e9
 			} else {
 				lv.I = rapid.SampledFrom([]int64{0, 1, -1, 42, math.MaxInt64, math.MinInt64, 1 << 53, 1234567}).Draw(rt, "i")
